@@ -31,6 +31,12 @@ def run(ctx):
               "Market::create_order writes only order_books[asset].orders", "Market::create_order writes %s" % sorted(s["writes"]))
     creation_outcome_rules(ctx, m)
     env_rules(ctx, m, (("Env", m.env_fn, "order_book"), ("MarketEnv", m.menv_fn, "market")))
+    # "the level-2 snapshot always equals the live book's level-2 data": the snapshot is assigned from level_2_data() of the book /
+    # market, so that function must itself be composed of the live book's own queries, unconditionally (C02's views rule; the
+    # multi-asset copy Market::level_2_data is the one a MarketEnv reads)
+    from . import c02
+    from .c06 import _Prefixed
+    c02.views(_Prefixed(ctx, "snapshot-feed-"), m)
 
 
 def creation_outcome_rules(ctx, m, rule="effects"):
